@@ -25,7 +25,7 @@ META = {
     "required_classes": ["pair", "point", "unary", "triple", "boxplus", "exact", "w_negative", "w_zero", "angle_seam"],
     "bounds": {
         "quick": "pairs: full quick alphabets (SE3 27 poses, SE2 36, Rn 3); triples: 12-pose sub-alphabet cubed; exact tier: 24 Hurwitz x 3 dyadic translations squared",
-        "thorough": "pairs: full thorough alphabets (SE3 7x37 poses, SE2 7x25); triples: 40-pose sub-alphabet cubed",
+        "thorough": "pairs: full thorough alphabets (SE3 7x37 poses, SE2 7x25); triples: 64-pose sub-alphabet cubed",
     },
 }
 
@@ -43,7 +43,7 @@ def _points(kind, tier, seed):
 
 def _thin(kind, tier, seed):
     ps = _alpha(kind, tier, seed)
-    want = 12 if tier == "quick" else 40
+    want = 12 if tier == "quick" else 64
     if len(ps) <= want:
         return ps
     # drop whole members deterministically: keep an evenly strided subset that contains first and last
